@@ -19,7 +19,9 @@ Tok(frames) == [i \in 1..Len(frames) |-> [frames[i] EXCEPT !.tok = IF @ = 0 /\ f
 RECURSIVE Comps(_)
 Comps(n) == IF n = 0 THEN {<<>>} ELSE UNION {{<<k>> \o r : r \in Comps(n - k)} : k \in 1..n}
 NSym(frames) == Len(Symbols(frames))
-Sc(fl, frames, segs) == [flags |-> fl, frames |-> Tok(frames), segs |-> segs]
+Sc(fl, frames, segs) == [flags |-> fl, frames |-> Tok(frames), segs |-> segs, again |-> <<>>]
+(* again: before which receive calls (0-based count of receives done) the caller sends a further request *)
+ScA(fl, frames, segs, ag) == [flags |-> fl, frames |-> Tok(frames), segs |-> segs, again |-> ag]
 F0 == [more |-> FALSE, oneway |-> FALSE, upgrade |-> FALSE, cont |-> FALSE]
 Wide(f) == IF f.nb = 0 THEN f ELSE [f EXCEPT !.nb = 2]
 CompsUpTo(n) == UNION {Comps(k) : k \in 0..n}
@@ -29,6 +31,12 @@ K1 == {Sc(fl, <<f>>, s) : fl \in Flags, f \in All1 \cup {Partial}, s \in {<<2>>,
 K2 == LET Streams == {<<Wide(a), b>> : a \in Rep, b \in Rep \cup {Partial}} \cup {<<a, b, c>> : a \in {Rep2 \in Rep : Rep2.cls = "reply"}, b \in Rep, c \in {Fr("reply", FALSE, "", "", 1), Partial}}
           PS == {x \in Streams \X CompsUpTo(6) : SumSeq(x[2]) <= NSym(x[1])} IN
       {Sc(F0, x[1], x[2]) : x \in PS}
+(* K3: pipelining - streams of two and three replies, every composition into writes (in particular all replies *)
+(* in one segment), further Sends placed before the second and/or third receive                              *)
+K3 == LET R == Fr("reply", FALSE, "", "", 1)
+          Streams == {<<R, R>>, <<R, R, R>>, <<Fr("reply", TRUE, "", "", 1), R, R>>}
+          PS == {x \in Streams \X CompsUpTo(6) : SumSeq(x[2]) = NSym(x[1])} IN
+      {ScA(F0, x[1], x[2], ag) : x \in PS, ag \in {<<1>>, <<2>>, <<1, 2>>, <<1, 1>>}}
 SegOK(sc) == SumSeq(sc.segs) <= NSym(sc.frames)
-AllK == {s \in K1 \cup K2 : SegOK(s)}
+AllK == {s \in K1 \cup K2 \cup K3 : SegOK(s)}
 =============================================================================
